@@ -123,7 +123,9 @@ def judge_bal(case, res):
 
     # ---- A: residuals + declared partials of the isolated component -------------------------------------
     try:
-        comp = make_balance(case)
+        with warnings.catch_warnings():
+            warnings.simplefilter('ignore')
+            comp = make_balance(case)
     except Exception as e:
         fail_exc(res, 'bal', construct_prefix(), e, 'construction')
         return
